@@ -231,8 +231,7 @@ pub fn main(tier: Tier) -> ! {
                 if !defined {
                     continue;
                 }
-                let a = jq::run_simple(&lhs, jq::to_val(i), 40);
-                let b_ = jq::run_simple(&rhs, jq::to_val(i), 40);
+                let (a, b_) = crate::ev::watched(|| format!("getpath-path: {text} @ {i}"), false, || (jq::run_simple(&lhs, jq::to_val(i), 40), jq::run_simple(&rhs, jq::to_val(i), 40)));
                 // ticks are doubled by construction on the left side: compare outputs and terminal event only
                 let strip = |t: &Vec<jq::Ev>| jq::trace_json(&t.iter().filter(|e| !matches!(e, jq::Ev::Tick(_))).cloned().collect::<Vec<_>>()).to_string();
                 let (sa, sb) = (strip(&a), strip(&b_));
@@ -258,7 +257,7 @@ pub fn main(tier: Tier) -> ! {
             for (n, l, f) in &laws {
                 let key = format!("law {n} @ {i}");
                 c.case(h64(&key), matches!(i, RVal::Arr(_) | RVal::Obj(_)), h64(&(n, i.type_name())));
-                if let Err(why) = jq::law_holds(f, jq::to_val(i), vec![]) {
+                if let Err(why) = crate::ev::watched(|| key.clone(), false, || jq::law_holds(f, jq::to_val(i), vec![])) {
                     run.violation(&key, json!({"law": l, "input": i.to_string(), "why": why}));
                 }
             }
